@@ -31,8 +31,9 @@ TRUSTED = ["harness/detspace.py, harness/isr_explicit.py, harness/numeric.py",
            "exact evaluation on sampled model Hamiltonians, not a proof over "
            "all Hamiltonians; the Wick step of every matrix element is "
            "covered by C01"]
-ASSUMPTIONS = ["mp partitioning, canonical HF, one-particle operators (two-"
-               "particle operators order <= 1 in the thorough tier)",
+ASSUMPTIONS = ["mp partitioning, canonical HF, one-particle operators; a "
+               "two-particle operator for the lowest diagonal block at "
+               "orders 0-1 (2 thorough), both subtract_gs settings",
                "quick: pp ph,ph orders 0-2, ph,pphh / pphh,ph order 1 (0 "
                "too), pphh,pphh order 0; ip/ea lowest class orders 0-2; "
                "transition moments pp ph 0-2, pphh 0-1, ip h / ea p 0-2",
@@ -131,6 +132,69 @@ def run(ctx):
                         "elements contracted with the amplitude vectors",
                         {"variant": variant, "block": f"{bs},{ks}",
                          "order": order, "subtract_gs": subtract,
+                         "model": {"nocc": 3, "nvirt": 3, "seed": space.seed},
+                         "derived": val, "explicit": want}, True)
+        # ---- two-particle operator: lowest diagonal block ------------------
+        # (its ground-state expectation value has a first-order contribution)
+        d2 = {}
+        for p_, q_ in itertools.combinations(range(space.n), 2):
+            for r_, s_ in itertools.combinations(range(space.n), 2):
+                v = numeric._h(space.seed, "d2", p_, q_, r_, s_) % 199 - 99
+                for (a_, b_, s1) in ((p_, q_, 1), (q_, p_, -1)):
+                    for (c_, e_, s2) in ((r_, s_, 1), (s_, r_, -1)):
+                        d2[(a_, b_, c_, e_)] = s1 * s2 * v
+        model2 = make_model(space, psi, d2)
+
+        def Dop2(vec):
+            return space.two_body_ten(d2, vec)
+        gs2 = X.op_gs(Dop2)
+        bs = ks = cls[0]
+        for order in ((0, 1) if quick else (0, 1, 2)):
+            for subtract in (True, False):
+                try:
+                    expr = prop.expec_block_contribution(
+                        order, f"{bs},{ks}", n_particles=2,
+                        subtract_gs=subtract)
+                except Exception as ex:
+                    ctx.violation(
+                        f"C05:expec2-exception:{variant}:{bs},{ks}:{order}",
+                        f"expec_block_contribution raised {ex!r}", {}, False)
+                    continue
+                val = evaluate(model2, expr)
+                tot = [0] * (max_order + 1)
+                for I, (oi, vi) in enumerate(X.configs[bs]):
+                    x = amp_value(model2, "X", bs, oi, vi)
+                    if not x:
+                        continue
+                    for J, (oj, vj) in enumerate(X.configs[ks]):
+                        y = amp_value(model2, "Y", ks, oj, vj)
+                        ser = X.op_matrix(Dop2, bs, I, ks, J)
+                        if subtract:
+                            ov = X.overlap(bs, I, ks, J)
+                            sub = detspace.series_mul(gs2, ov, max_order)
+                            ser = [(a - b) % P for a, b in zip(ser, sub)]
+                        for n in range(max_order + 1):
+                            tot[n] = (tot[n] + x * ser[n] * y) % P
+                n1 = n_ov_from_space(bs)
+                g1 = factorial(n1["occ"]) * factorial(n1["virt"])
+                want = tot[order] * g1 % P
+                ctx.case(key=("expec2", variant, bs, order, subtract,
+                              space.seed), nontrivial=True,
+                         kind=f"expec-2particle:{variant}:{bs},{ks}")
+                if not ctx.obligation(
+                        f"{variant} two-particle expectation value block "
+                        f"{bs},{ks} order {order} subtract_gs={subtract}",
+                        val == want):
+                    ctx.violation(
+                        f"C05:expectation-2particle:{variant}:{bs},{ks}:"
+                        f"order{order}:{subtract}",
+                        "derived excited-state expectation value "
+                        "contribution of a two-particle operator differs "
+                        "from the explicit matrix elements contracted with "
+                        "the amplitude vectors",
+                        {"variant": variant, "block": f"{bs},{ks}",
+                         "order": order, "subtract_gs": subtract,
+                         "n_particles": 2,
                          "model": {"nocc": 3, "nvirt": 3, "seed": space.seed},
                          "derived": val, "explicit": want}, True)
         # ---- transition moments ------------------------------------------
